@@ -78,6 +78,22 @@ theorem regularization_rule_graph (n : Nat) (hn : 0 < n) (a : Mat α) (reg : α)
       · rfl
       · exact absurd (hiff.mp hsc u v hu hv) hr
 
+/-- **specification and model apply the same regularisation**: the effective regularisation computed by the
+    specification (Warshall closure, used by the `spec` lines) is the one `_get_regularization` of the model computes
+    (relaxation rounds) — both decide reachability exactly. -/
+theorem effectiveReg_eq (n : Nat) (hn : 0 < n) (a : Mat α) (reg : α) :
+    Spec.effectiveReg n a reg = getRegularization reg (stronglyConnected n a) ∧
+    (Spec.stronglyConnected n a = true ↔ ∀ u v, u < n → v < n → Reach n (nzEdge a) u v) := by
+  have heq := spec_stronglyConnected_eq n hn a
+  constructor
+  · unfold Spec.effectiveReg getRegularization absv
+    rw [heq]
+    by_cases h : reg < 0
+    · simp only [h, if_true]
+      cases stronglyConnected n a <;> simp
+    · simp only [h, if_false]
+  · rw [heq]; exact stronglyConnected_iff n hn a
+
 example : stronglyConnected 3 ([[0, 1, 0], [0, 0, 1], [1, 0, 0]] : Mat ℚ) = true ∧
     stronglyConnected 3 ([[0, 1, 0], [0, 0, 1], [0, 0, 0]] : Mat ℚ) = false := by decide +kernel
 
@@ -178,6 +194,55 @@ theorem trivial_pair (n : Nat) (a : Mat α) (reg : α) (i : Nat) :
   · simp only [Spec.lapApply, mul_one]
     change Spec.degReg n a reg i - Spec.degReg n a reg i = 0
     ring
+
+/-- **a non-trivial pair is orthogonal to the trivial one**: on a symmetric graph without node of zero (regularised)
+    degree, an eigenvector of `P = D_reg⁻¹A_reg` for an eigenvalue `λ ≠ 1` satisfies `Σ_i d_i v_i = 0`, and an
+    eigenvector of `L = D_reg − A_reg` for `λ ≠ 0` satisfies `Σ_i v_i = 0` (this is what the spec lines test to see that
+    the skipped pair is the trivial one). -/
+theorem nontrivial_pair_orthogonal (n : Nat) (a : Mat α) (reg : α)
+    (hsym : ∀ i j, i < n → j < n → mget a i j = mget a j i) (v : Nat → α) (lam : α) :
+    ((∀ i, i < n → Spec.degReg n a reg i ≠ 0) → (∀ i, i < n → Spec.transApply n a reg v i = lam * v i) → lam ≠ 1 →
+      ∑ i ∈ range n, Spec.degReg n a reg i * v i = 0) ∧
+    ((∀ i, i < n → Spec.lapApply n a reg v i = lam * v i) → lam ≠ 0 → ∑ i ∈ range n, v i = 0) := by
+  have hsymR : ∀ i j, i < n → j < n → Spec.aReg n a reg i j = Spec.aReg n a reg j i := by
+    intro i j hi hj; simp only [Spec.aReg]; rw [hsym i j hi hj]
+  -- column sums of A_reg are its row sums
+  have hcol : ∑ i ∈ range n, ∑ j ∈ range n, Spec.aReg n a reg i j * v j
+      = ∑ j ∈ range n, Spec.degReg n a reg j * v j := by
+    rw [Finset.sum_comm]
+    refine Finset.sum_congr rfl fun j hj => ?_
+    simp only [Spec.degReg, sumN_eq_sum, Finset.sum_mul]
+    exact Finset.sum_congr rfl fun i hi => by
+      rw [hsymR i j (Finset.mem_range.mp hi) (Finset.mem_range.mp hj)]
+  constructor
+  · intro hd heig hne
+    have h1 : ∑ i ∈ range n, Spec.degReg n a reg i * (lam * v i)
+        = ∑ i ∈ range n, ∑ j ∈ range n, Spec.aReg n a reg i j * v j := by
+      refine Finset.sum_congr rfl fun i hi => ?_
+      have hi' := Finset.mem_range.mp hi
+      rw [← heig i hi', Spec.transApply, sumN_eq_sum, ← mul_assoc, mul_comm (Spec.degReg n a reg i),
+        pinv_mul_self (hd i hi'), one_mul]
+    rw [hcol] at h1
+    have h3 : lam * ∑ i ∈ range n, Spec.degReg n a reg i * v i = ∑ i ∈ range n, Spec.degReg n a reg i * v i := by
+      rw [Finset.mul_sum]
+      refine Eq.trans ?_ h1
+      exact Finset.sum_congr rfl fun i _ => by ring
+    have h2 : (lam - 1) * ∑ i ∈ range n, Spec.degReg n a reg i * v i = 0 := by
+      rw [sub_mul, one_mul, h3, sub_self]
+    rcases mul_eq_zero.mp h2 with h | h
+    · exact absurd (sub_eq_zero.mp h) hne
+    · exact h
+  · intro heig hne
+    have h1 : ∑ i ∈ range n, lam * v i = 0 := by
+      have : ∑ i ∈ range n, lam * v i = ∑ i ∈ range n, Spec.lapApply n a reg v i :=
+        Finset.sum_congr rfl fun i hi => (heig i (Finset.mem_range.mp hi)).symm
+      rw [this]
+      simp only [Spec.lapApply, sumN_eq_sum, Finset.sum_sub_distrib]
+      rw [hcol]; ring
+    rw [← Finset.mul_sum] at h1
+    rcases mul_eq_zero.mp h1 with h | h
+    · exact absurd h hne
+    · exact h
 
 /-! ### Spectral -/
 
